@@ -288,3 +288,150 @@ Print Assumptions c18_relmsg_roundtrip.
 Theorem c18_relmsg_rejects : forall m b, enc_relmsg m = Ok b -> len m <= 65535.
 Proof. exact enc_relmsg_repr. Qed.
 Print Assumptions c18_relmsg_rejects.
+
+(* ================= extension round: key text forms (keys/dh.go, keys/kem.go, keys/signatures.go) ==========
+   Model/WireText.v: Go's base64.StdEncoding (Encode, Decode/decodeQuantum, DecodeString) and the
+   "hop-dh-v1-" / "hop-kem-v1-" / "hop-sign-v1-" forms.  Texts are lists of byte values. *)
+From Hop Require Import WireText WireTextProofs WireMore WireMoreProofs.
+
+(* base64, for EVERY byte list *)
+Theorem c18_b64_roundtrip : forall l, wf_bytes l = true -> b64_decode (b64_encode l) = Ok l.
+Proof. exact b64_roundtrip. Qed.
+Print Assumptions c18_b64_roundtrip.
+
+(* for every text that decodes: re-encoding the bytes and decoding again yields the same bytes *)
+Theorem c18_b64_stable : forall s l, b64_decode s = Ok l -> b64_decode (b64_encode l) = Ok l.
+Proof. exact b64_stable. Qed.
+Print Assumptions c18_b64_stable.
+
+(* DecodeString never writes outside the buffer it sized from the text length (len s / 4 * 3):
+   the model's destination-capacity check never fires, for every text *)
+Theorem c18_b64_decode_total : forall s, b64_decode s <> Panic.
+Proof. exact b64_decode_total. Qed.
+Print Assumptions c18_b64_decode_total.
+
+Theorem c18_b64_decodes_to_bytes : forall s l, b64_decode s = Ok l -> wf_bytes l = true.
+Proof. exact b64_decode_wf. Qed.
+Print Assumptions c18_b64_decodes_to_bytes.
+
+Theorem c18_b64_encoded_length : forall l, len (b64_encode l) = (len l + 2) / 3 * 4.
+Proof. exact len_b64_encode. Qed.
+Print Assumptions c18_b64_encoded_length.
+
+(* key text forms: parse (format k) = k for ALL keys of the type ... *)
+Theorem c18_dh_text_roundtrip : forall k, wf_bytes k = true -> len k = 32 -> parse_dh (format_dh k) = Ok k.
+Proof. intros k W L. exact (parse_format_key dh_prefix 32 no_check k W L eq_refl). Qed.
+Print Assumptions c18_dh_text_roundtrip.
+Theorem c18_sign_text_roundtrip : forall k, wf_bytes k = true -> len k = 32 -> parse_sign (format_sign k) = Ok k.
+Proof. intros k W L. exact (parse_format_key sign_prefix 32 no_check k W L eq_refl). Qed.
+Print Assumptions c18_sign_text_roundtrip.
+(* ML-KEM-512: every 800-byte string that passes the FIPS 203 encapsulation-key check *)
+Theorem c18_kem_text_roundtrip : forall k,
+  wf_bytes k = true -> len k = 800 -> kem_ek_ok k = true -> parse_kem (format_kem k) = Ok k.
+Proof. exact (parse_format_key kem_prefix 800 kem_ek_ok). Qed.
+Print Assumptions c18_kem_text_roundtrip.
+
+(* ... and for ALL texts that parse: formatting the parsed key and parsing again gives the same result
+   (the text itself is not reproduced: newlines and non-zero trailing bits are dropped, see the Examples) *)
+Theorem c18_dh_text_stable : forall s k, parse_dh s = Ok k -> parse_dh (format_dh k) = parse_dh s.
+Proof. exact (parse_key_stable dh_prefix 32 no_check). Qed.
+Print Assumptions c18_dh_text_stable.
+Theorem c18_kem_text_stable : forall s k, parse_kem s = Ok k -> parse_kem (format_kem k) = parse_kem s.
+Proof. exact (parse_key_stable kem_prefix 800 kem_ek_ok). Qed.
+Print Assumptions c18_kem_text_stable.
+Theorem c18_sign_text_stable : forall s k, parse_sign s = Ok k -> parse_sign (format_sign k) = parse_sign s.
+Proof. exact (parse_key_stable sign_prefix 32 no_check). Qed.
+Print Assumptions c18_sign_text_stable.
+
+(* what parses is a key of the type: byte string of the exact length, passing the type's own check,
+   and the text carried the prefix; no text makes a parser panic *)
+Theorem c18_dh_text_parsed_is_key : forall s k,
+  parse_dh s = Ok k -> wf_bytes k = true /\ len k = 32 /\ no_check k = true /\ has_prefix dh_prefix s = true.
+Proof. exact (parse_key_sound dh_prefix 32 no_check). Qed.
+Print Assumptions c18_dh_text_parsed_is_key.
+Theorem c18_kem_text_parsed_is_key : forall s k,
+  parse_kem s = Ok k -> wf_bytes k = true /\ len k = 800 /\ kem_ek_ok k = true /\ has_prefix kem_prefix s = true.
+Proof. exact (parse_key_sound kem_prefix 800 kem_ek_ok). Qed.
+Print Assumptions c18_kem_text_parsed_is_key.
+Theorem c18_key_text_no_panic : forall s, parse_dh s <> Panic /\ parse_kem s <> Panic /\ parse_sign s <> Panic.
+Proof. intros s. repeat split; apply parse_key_total. Qed.
+Print Assumptions c18_key_text_no_panic.
+(* two keys with the same text are the same key *)
+Theorem c18_dh_text_injective : forall k1 k2,
+  wf_bytes k1 = true -> len k1 = 32 -> wf_bytes k2 = true -> len k2 = 32 -> format_dh k1 = format_dh k2 -> k1 = k2.
+Proof. intros k1 k2 W1 L1 W2 L2. exact (format_key_inj dh_prefix 32 no_check k1 k2 W1 L1 eq_refl W2 L2 eq_refl). Qed.
+Print Assumptions c18_dh_text_injective.
+
+(* non-vacuity and the accepted non-canonical forms: alphabet = the literal of encoding/base64; RFC 4648 vectors;
+   a key with a trailing newline (what ReadDHKeyFromPubFile hands over), newlines inside, non-zero trailing bits
+   parse to the SAME key; space, missing padding, '=' too early, garbage after the padding, wrong prefix, 31 bytes are refused *)
+Definition str (s : string) : bytes := map (fun a => N_of_ascii a) (list_ascii_of_string s).
+Example c18_b64_alphabet :
+  map b64_char [0;1;2;3;4;5;6;7;8;9;10;11;12;13;14;15;16;17;18;19;20;21;22;23;24;25;26;27;28;29;30;31;32;33;34;35;36;37;38;39;
+                40;41;42;43;44;45;46;47;48;49;50;51;52;53;54;55;56;57;58;59;60;61;62;63]
+  = str "ABCDEFGHIJKLMNOPQRSTUVWXYZabcdefghijklmnopqrstuvwxyz0123456789+/".
+Proof. vm_compute. reflexivity. Qed.
+Example c18_b64_rfc4648 :
+  b64_encode (str "f") = str "Zg==" /\ b64_encode (str "fo") = str "Zm8=" /\ b64_encode (str "foo") = str "Zm9v" /\
+  b64_encode (str "foobar") = str "Zm9vYmFy" /\ b64_decode (str "Zm9vYmE=") = Ok (str "fooba") /\
+  b64_decode (str "Zh==") = Ok (str "f") /\ b64_decode (str "Zm9=") = Ok (str "fo") /\   (* trailing bits dropped *)
+  b64_decode (str "Zg=") = Err /\ b64_decode (str "Zg") = Err /\ b64_decode (str "Z===") = Err /\
+  b64_decode (str "Zg==Zg==") = Err /\ b64_decode (str "Zg= =") = Err /\ b64_decode (str "Zm-v") = Err.
+Proof. repeat split; vm_compute; reflexivity. Qed.
+Definition sample_dh_key : bytes := map (fun i => (7 * i + 3) mod 256) (map N.of_nat (seq 0 32)).
+Definition sample_dh_text : bytes := format_dh sample_dh_key.
+Definition nl : bytes := [10].
+Example c18_dh_text_sample :
+  wf_bytes sample_dh_key = true /\ len sample_dh_key = 32 /\ len sample_dh_text = 54 /\
+  parse_dh sample_dh_text = Ok sample_dh_key /\
+  parse_dh (sample_dh_text ++ nl) = Ok sample_dh_key /\
+  parse_dh (take 20 sample_dh_text ++ [13; 10] ++ drop 20 sample_dh_text) = Ok sample_dh_key /\
+  parse_dh (take 52 sample_dh_text ++ str "x=") = Ok sample_dh_key /\ take 52 sample_dh_text ++ str "x=" <> sample_dh_text /\
+  parse_dh (take 20 sample_dh_text ++ [32] ++ drop 20 sample_dh_text) = Err /\
+  parse_dh (take 53 sample_dh_text) = Err /\
+  parse_dh (sample_dh_text ++ str "A") = Err /\
+  parse_dh (take 5 sample_dh_text ++ nl ++ drop 5 sample_dh_text) = Err /\
+  parse_sign sample_dh_text = Err /\
+  parse_dh (format_dh (take 31 sample_dh_key)) = Err /\ parse_dh (format_dh (sample_dh_key ++ [0])) = Err.
+Proof. repeat split; try (vm_compute; reflexivity). vm_compute. discriminate. Qed.
+(* the encapsulation-key check: coefficient 3328 passes, 3329 (= q) is refused *)
+Example c18_kem_ek_check :
+  kem_ek_ok ([0; 13; 0] ++ repeat 0 797) = true /\ kem_ek_ok ([1; 13; 0] ++ repeat 0 797) = false /\
+  kem_ek_ok ([0; 0; 208] ++ repeat 0 797) = true /\ kem_ek_ok ([0; 16; 208] ++ repeat 0 797) = false /\
+  kem_ek_ok (repeat 0 768 ++ repeat 255 32) = true /\
+  parse_kem (format_kem (repeat 0 768 ++ repeat 255 32)) = Ok (repeat 0 768 ++ repeat 255 32) /\
+  parse_kem (format_kem ([1; 13; 0] ++ repeat 0 797)) = Err.
+Proof. repeat split; vm_compute; reflexivity. Qed.
+
+(* ================= extension round: codex status message (SendSuccess / SendFailure / getStatus) ============
+   value: None = command started, Some text = failure.  After the fix SendFailure cuts the text to the 65535
+   bytes its 16-bit length can announce (norm_status); an error of ANY length is delivered well-framed. *)
+Theorem c18_status_roundtrip : forall st rest, val dec_status (enc_status st ++ rest) = Ok (norm_status st, rest).
+Proof. exact status_roundtrip. Qed.
+Print Assumptions c18_status_roundtrip.
+Theorem c18_status_stable : forall s v r,
+  val dec_status s = Ok (v, r) -> wf_bytes s = true -> forall r', val dec_status (enc_status v ++ r') = Ok (v, r').
+Proof. exact status_stable. Qed.
+Print Assumptions c18_status_stable.
+(* regression witness: the ORIGINAL SendFailure mis-frames every 65536-byte error text (announced length 0:
+   the client reads an empty error, the text stays in the tube) *)
+Theorem c18_status_unfixed_refuted : forall e, len e = 65536 ->
+  val dec_status (enc_status_unfixed (Some e)) = Ok (Some [], e) /\
+  val dec_status (enc_status (Some e) ++ []) = Ok (Some (take 65535 e), []).
+Proof. exact status_unfixed_truncates. Qed.
+Print Assumptions c18_status_unfixed_refuted.
+Example c18_status_unfixed_witness : len (zeros 65536) = 65536.
+Proof. exact status_unfixed_witness. Qed.
+Example c18_status_sample :
+  enc_status None = [1] /\ enc_status (Some (str "no")) = [2; 0; 2; 0; 0; 110; 111] /\
+  val dec_status ([2; 0; 2; 9; 9; 110; 111; 5]) = Ok (Some (str "no"), [5]) /\
+  val dec_status [] = Ok (Some [], []) /\ val dec_status [3; 0; 3; 0; 0; 97] = Ok (Some [97; 0; 0], []).
+Proof. repeat split; vm_compute; reflexivity. Qed.
+
+(* window size (serializeSize / readSize) and ReadUnreliableProxyID *)
+Theorem c18_winsize_roundtrip : forall w rest, wt_ws w = true -> val dec_ws (enc_ws w ++ rest) = Ok (w, rest).
+Proof. exact ws_roundtrip. Qed.
+Print Assumptions c18_winsize_roundtrip.
+Theorem c18_proxy_id_roundtrip : forall x rest, val dec_proxy_id (x :: rest) = Ok (x, rest).
+Proof. exact proxy_id_roundtrip. Qed.
+Print Assumptions c18_proxy_id_roundtrip.
